@@ -26,7 +26,7 @@ TRUSTED = ["python re-implementation of the C01 guards G01p/G01q (balance at ZIP
 TOL = 2e-6
 
 
-def _gen_case(rng):
+def _gen_case(rng, force_pair=False):
     net = pf.gen_net(rng, rich=rng.choice([0.5, 0.8]), n_gen=0, two_eg_p=0.25, allow_xward=False,
                      zip_p=0.25 if rng.random() < 0.3 else 0.0)
     buses = [int(b) for b in net.bus.index[net.bus.vn_kv == 20.0]]
@@ -67,7 +67,17 @@ def _gen_case(rng):
         pp.create_xward(net, b, ps_mw=pf.g8(rng, -4, 8), qs_mvar=pf.g8(rng, -4, 4), pz_mw=pf.g8(rng, 0, 8), qz_mvar=pf.g8(rng, -4, 4),
                         r_ohm=pf.g8(rng, 1, 16), x_ohm=pf.g8(rng, 4, 40), vm_pu=rng.choice([1.0, 0.99, 1.01]),
                         in_service=rng.random() < 0.9, slack_weight=rng.choice(W))
-    r = rng.random()
+    # fixed fraction of the nets: several xwards on ONE bus with mixed in_service flags, all with non-zero weights
+    # (an out-of-service xward must neither take a share nor disturb the shares of the in-service ones)
+    if force_pair and free:
+        b = free.pop()
+        flags = [True, False] + [rng.random() < 0.5 for _ in range(rng.randint(0, 1))]
+        rng.shuffle(flags)
+        for ins in flags:
+            pp.create_xward(net, b, ps_mw=pf.g8(rng, -4, 8), qs_mvar=pf.g8(rng, -4, 4), pz_mw=pf.g8(rng, 0, 8), qz_mvar=pf.g8(rng, -4, 4),
+                            r_ohm=pf.g8(rng, 1, 16), x_ohm=pf.g8(rng, 4, 40), vm_pu=1.0, in_service=ins,
+                            slack_weight=rng.choice([0.125, 0.5, 1.0, 2.0]))
+    r = rng.random() if not force_pair else 1.0
     if r < 0.02:
         net.ext_grid["slack_weight"] = 0.0; net.gen["slack_weight"] = 0.0
         if len(net.xward):
@@ -75,7 +85,11 @@ def _gen_case(rng):
     elif r < 0.04:
         net.ext_grid["slack_weight"] = -1.0
     opts = {"numba": False, "distributed_slack": True, "voltage_depend_loads": rng.random() < 0.7}
-    if rng.random() < 0.6:
+    if force_pair == "ls2g":
+        opts["voltage_depend_loads"] = False   # lightsim2grid is only picked without ZIP loads
+        net.load["const_z_p_percent"] = 0.0; net.load["const_i_p_percent"] = 0.0
+        net.load["const_z_q_percent"] = 0.0; net.load["const_i_q_percent"] = 0.0
+    elif force_pair or rng.random() < 0.6:
         opts["lightsim2grid"] = False        # pandapower's own newtonpf; otherwise lightsim2grid is picked automatically when possible
     if rng.random() < 0.25:
         opts["enforce_q_lims"] = True        # q-limit loop around the distributed slack power flow (xward slack share must survive)
@@ -167,8 +181,10 @@ def _py_G10x(x, xws, others):
     return raw == pd
 
 
-def _one(ctx, rng, T, given=None, sample=False):
-    net, opts = _gen_case(rng) if given is None else given
+def _one(ctx, rng, T, given=None, sample=False, force_pair=False):
+    net, opts = _gen_case(rng, force_pair) if given is None else given
+    if force_pair:
+        ctx.count("mixed_in_service_xwards_on_one_bus")
     net_js = pp.to_json(net)
     case = {"net": net_js, "opts": opts}
     err = None
@@ -320,12 +336,13 @@ def run(ctx, only=None):
     T = {k: [] for k in ("norm_t", "norm_p", "gen_t", "gen_p", "xw_t", "xw_p", "orc")}
     idx_gen, idx_xw = [], []     # oracle index of each gen / xward comparison
     if only is None:
-        todo = [(g, False) for g in _corpus()] + [(None, k < 2) for k in range(ctx.n(100, 2500))]
+        todo = [(g, False, False) for g in _corpus()] + \
+               [(None, k < 2, (False if k % 6 else ("ls2g" if k % 12 else True))) for k in range(ctx.n(100, 2500))]
     else:
-        todo = [(g, True) for g in only]
-    for given, sample in todo:
+        todo = [(g, True, False) for g in only]
+    for given, sample, force_pair in todo:
         n0, x0 = len(T["gen_t"]), len(T["xw_t"])
-        _one(ctx, rng, T, given=given, sample=sample)
+        _one(ctx, rng, T, given=given, sample=sample, force_pair=force_pair)
         if len(T["gen_t"]) > n0:
             idx_gen.append(len(T["orc"]) - 1)
         if len(T["xw_t"]) > x0:
